@@ -117,6 +117,17 @@ func c14Kind(t types.Type) string {
 
 func runC14(c *Ctx) error {
 	res := c.Res
+	// cyclic anonymous interfaces first, in a child process: if a comparison does not return there, the in-process suites
+	// below (whose universes contain recursive interfaces too) would take this process down with them
+	if err := c14Cyclic(c); err != nil {
+		return err
+	}
+	for _, v := range res.Violations {
+		if strings.HasSuffix(v.Signature, "does-not-return:cyclic-anonymous-interface") {
+			res.Notes = append(res.Notes, "in-process suites skipped: a comparison of cyclic interface types does not return")
+			return nil
+		}
+	}
 	groups, nBase := 2, 6
 	implBudget := 4000
 	if c.Thorough {
